@@ -360,5 +360,111 @@ def verify_fieldport_signature_init():
     return fv
 
 
+def _verify_create(FILE, sig_cls, qual, callee, params, self_positional=False):
+    """S.create(path=..., src_loc_at=...): ONE call of the interface class with exactly the signature's own parameters (each read through
+    its property, i.e. the value the constructor stored); its result is returned.  (Path and source location are not claimed.)"""
+    fv = FnVerifier(qual, [])
+    fn = find_def(FILE, f"{sig_cls}.create")
+    ex = Exec(FILE, sig_cls, axioms=[])
+    ex.class_files = {sig_cls: FILE}
+    self_ = SymObj(sig_cls, "self")
+    stored = {p_: Opaque(f"stored {p_}") for p_ in params}
+    for p_, v in stored.items():
+        self_.init_fields["_" + p_] = v
+    path_arg = Opaque("path argument")
+    calls = []
+    made = SymObj("Interface", "the created interface")
+
+    def c_iface(ex_, recv, a, k, q, node):
+        calls.append((tuple(a), dict(k)))
+        return [(made, q), (Raised("refused-by-the-interface-class"), q.fork())]
+    ex.contracts[callee] = c_iface
+    q = Path(); q.env.update({"self": self_, "path": path_arg, "src_loc_at": z3.Int("src_loc_at")})
+    outs = ex.run(fn, q)
+    fv.paths = len(outs)
+    n_ok = 0
+    for k, o in enumerate(outs):
+        if o.kind == "raise":
+            fv.add("create-itself-refuses-nothing", f"path{k}", o.path.pc, z3.BoolVal(o.exc.startswith("refused-by-")))
+            continue
+        n_ok += 1
+        fv.add("returns-the-created-interface", f"path{k}", o.path.pc, z3.BoolVal(o.value is made))
+    fv.add("interface-class-called-exactly-once", "all", [], z3.BoolVal(len(calls) == 1))
+    if len(calls) == 1:
+        a, kw = calls[0]
+        if self_positional:
+            fv.add("the-signature-itself-is-handed-over", "all", [], z3.BoolVal(a == (self_,) or (not a and kw.get("signature") is self_)))
+        else:
+            given = dict(kw)
+            for i, v in enumerate(a):
+                if i < len(params):
+                    given.setdefault(params[i], v)
+            for p_ in params:
+                fv.add(f"parameter-{p_}-is-the-signature's-own", "all", [], z3.BoolVal(given.get(p_) is stored[p_]))
+    fv.add("cover:accepting-paths", "vacuity", [], z3.BoolVal(n_ok >= 1))
+    fv.add_engine_obligations(ex)
+    return fv
+
+
+def _verify_interface_init(FILE, cls, qual, sig_callee, params, n_positional=0):
+    """Interface.__init__(params..., path=None): ONE signature built from the parameters AS GIVEN and handed to the interface base class;
+    the constructor itself refuses nothing (the signature validates)"""
+    fv = FnVerifier(qual, [])
+    fn = find_def(FILE, f"{cls}.__init__")
+    ex = Exec(FILE, cls, axioms=[])
+    args = {p_: Opaque(f"{p_} argument") for p_ in params}
+    path_arg = Opaque("path argument")
+    sigs, sups = [], []
+    sig = SymObj("Signature", "the signature")
+
+    def c_sig(ex_, recv, a, k, q, node):
+        sigs.append((tuple(a), dict(k)))
+        return [(sig, q), (Raised("refused-by-the-signature"), q.fork())]
+    ex.contracts[sig_callee] = c_sig
+    ex.contracts["super"] = lambda ex_, recv, a, k, q, node: [(Opaque("super()"), q)]
+
+    def c_super_init(ex_, recv, a, k, q, node):
+        sups.append((tuple(a), dict(k)))
+        return [(NONE, q)]
+    ex.contracts["super().__init__"] = c_super_init
+    self_ = SymObj(cls, "self")
+    q = Path(); q.env.update({"self": self_, "path": path_arg, "src_loc_at": z3.Int("src_loc_at"), **args})
+    outs = ex.run(fn, q)
+    fv.paths = len(outs)
+    n_ok = 0
+    for k, o in enumerate(outs):
+        if o.kind == "raise":
+            fv.add("the-constructor-itself-refuses-nothing", f"path{k}", o.path.pc, z3.BoolVal(o.exc.startswith("refused-by-")))
+            continue
+        n_ok += 1
+    fv.add("one-signature-built", "all", [], z3.BoolVal(len(sigs) == 1))
+    if len(sigs) == 1:
+        a, kw = sigs[0]
+        given = dict(kw)
+        for i, v in enumerate(a):
+            if i < len(params):
+                given.setdefault(params[i], v)
+        for p_ in params:
+            fv.add(f"signature-parameter-{p_}-as-given", "all", [], z3.BoolVal(given.get(p_) is args[p_]))
+    fv.add("that-signature-handed-to-the-interface-base", "all", [],
+           z3.BoolVal(len(sups) == 1 and (sups[0][0][:1] == (sig,) or sups[0][1].get("signature") is sig)))
+    fv.add("cover:accepting-paths", "vacuity", [], z3.BoolVal(n_ok >= 1))
+    fv.add_engine_obligations(ex)
+    return fv
+
+
+WB, CSRB, REG, EV = "amaranth_soc/wishbone/bus.py", "amaranth_soc/csr/bus.py", "amaranth_soc/csr/reg.py", "amaranth_soc/event.py"
+ROUND_TRIP = [
+    lambda: _verify_create(WB, "Signature", "wishbone.bus.Signature.create", "Interface", ["addr_width", "data_width", "granularity", "features"]),
+    lambda: _verify_interface_init(WB, "Interface", "wishbone.bus.Interface.__init__", "Signature", ["addr_width", "data_width", "granularity", "features"]),
+    lambda: _verify_create(CSRB, "Signature", "csr.bus.Signature.create", "Interface", ["addr_width", "data_width"]),
+    lambda: _verify_interface_init(CSRB, "Interface", "csr.bus.Interface.__init__", "Signature", ["addr_width", "data_width"]),
+    lambda: _verify_create(CSRB, "Element.Signature", "csr.bus.Element.Signature.create", "Element", ["width", "access"]),
+    lambda: _verify_interface_init(CSRB, "Element", "csr.bus.Element.__init__", "Element.Signature", ["width", "access"]),
+    lambda: _verify_create(REG, "FieldPort.Signature", "csr.reg.FieldPort.Signature.create", "FieldPort", [], self_positional=True),
+    lambda: _verify_create(EV, "Source.Signature", "event.Source.Signature.create", "Source", ["trigger"]),
+    lambda: _verify_interface_init(EV, "Source", "event.Source.__init__", "Source.Signature", ["trigger"]),
+]
+
 ALL = [verify_wb_signature_init, verify_csr_signature_init, verify_element_signature_init,
        verify_source_signature_init, verify_pin_signature_init, verify_fieldport_signature_init]
